@@ -865,7 +865,7 @@ class Filter(base.Filter):
                     attrs[attr] = re.sub(r'url\s*\(\s*[^#\s][^)]+?\)',
                                          ' ',
                                          unescape(attrs[attr]))
-            if (token["name"] in self.svg_allow_local_href and
+            if ((None, token["name"]) in self.svg_allow_local_href and
                 (namespaces['xlink'], 'href') in attrs and re.search(r'^\s*[^#\s].*',
                                                                      attrs[(namespaces['xlink'], 'href')])):
                 del attrs[(namespaces['xlink'], 'href')]
